@@ -82,6 +82,11 @@ pub struct MismatchCase {
 	pub col: u8,
 	pub flags: u8,
 	pub with_data: bool,
+	/// > 0: the directory is what an unclean stop leaves - that many rounds of commit / log / sync /
+	/// apply / reclaim (reclaimed log files stay in the directory, empty, for re-use), then commits
+	/// that are logged and synced but not applied; captured while the handle is alive
+	#[serde(default)]
+	pub unclean: u8,
 }
 
 fn flip(c: &ColCfg, flags: u8) -> ColCfg {
@@ -129,6 +134,69 @@ pub fn run_mismatch(case: &MismatchCase, dir: &Path) -> CaseResult {
 				}
 			}
 		}
+		if case.unclean > 0 {
+			let put = |id: u16| -> Res<()> {
+				for (i, c) in cfg.cols.iter().enumerate() {
+					if c.kind != Kind::Multi {
+						let v = if c.value_from_key() { c.pre_value(id) } else { vec![id as u8; 40] };
+						db.commit(vec![(i as u8, c.key(id), Some(v))]).map_err(|e| Failure::new("commit-failed", e.to_string()))?;
+					}
+				}
+				Ok(())
+			};
+			let step = |r: parity_db::Result<()>| r.map_err(|e| Failure::new("step-failed", e.to_string()));
+			for round in 0..case.unclean as u16 {
+				put(2 + round)?;
+				for _ in 0..cfg.cols.len() + 1 {
+					step(db.process_commits())?;
+				}
+				step(db.flush_logs())?;
+				if round % 2 == 0 {
+					// a second file in circulation
+					put(20 + round)?;
+					for _ in 0..cfg.cols.len() + 1 {
+					step(db.process_commits())?;
+				}
+					step(db.flush_logs())?;
+				}
+				for _ in 0..3 {
+					step(db.enact_logs())?;
+				}
+				step(db.clean_logs())?;
+			}
+			// three files in circulation; applying them leaves two to reclaim (the file read last
+			// stays open); one of the two reclaimed files is taken again, the other stays empty
+			for id in 40..43u16 {
+				put(id)?;
+				for _ in 0..cfg.cols.len() + 1 {
+					step(db.process_commits())?;
+				}
+				step(db.flush_logs())?;
+			}
+			for _ in 0..6 {
+				step(db.enact_logs())?;
+			}
+			step(db.clean_logs())?;
+			put(43)?;
+			for _ in 0..cfg.cols.len() + 1 {
+				step(db.process_commits())?;
+			}
+			step(db.flush_logs())?;
+			let img = dir.join("img");
+			copy_dir(&db_dir, &img).map_err(|e| Failure::new("harness-io", e.to_string()))?;
+			set_faults(0);
+			drop(db);
+			disarm();
+			let _ = std::fs::remove_dir_all(&db_dir);
+			std::fs::rename(&img, &db_dir).map_err(|e| Failure::new("harness-io", e.to_string()))?;
+			let logs: Vec<u64> = file_sizes(&db_dir).iter().filter(|(k, _)| k.starts_with("log")).map(|(_, v)| *v).collect();
+			if logs.iter().any(|l| *l == 0) {
+				out.label("unclean-directory-with-empty-log-file");
+			}
+			if logs.iter().any(|l| *l > 0) {
+				out.label("unclean-directory-with-pending-log");
+			}
+		}
 	}
 	let mut req = case.stored.clone();
 	match case.change {
@@ -149,7 +217,12 @@ pub fn run_mismatch(case: &MismatchCase, dir: &Path) -> CaseResult {
 		return Ok(out)
 	}
 	let before = dir_snapshot(&db_dir);
-	for (name, r) in [("open", Db::open(&ropts)), ("open_or_create", Db::open_or_create(&ropts))] {
+	for name in ["open", "open_or_create", "open_read_only"] {
+		let r = match name {
+			"open" => Db::open(&ropts),
+			"open_or_create" => Db::open_or_create(&ropts),
+			_ => Db::open_read_only(&ropts),
+		};
 		match r {
 			Ok(_) => fail!("mismatching-options-accepted", "Db::{name} succeeded although the stored options differ: stored {:?} requested {:?}", case.stored, req),
 			Err(_) => {},
@@ -408,7 +481,7 @@ fn run(ctx: &Ctx) {
 	if !ctx.run_prop(
 		"mismatch",
 		n,
-		(proptest::collection::vec(any_col(true), 1..=4), 0u8..6, any::<u8>(), any::<u8>(), any::<bool>()).prop_map(|(stored, change, col, flags, with_data)| MismatchCase { stored, change, col, flags, with_data }),
+		(proptest::collection::vec(any_col(true), 1..=4), 0u8..6, any::<u8>(), any::<u8>(), any::<bool>(), prop_oneof![1 => Just(0u8), 1 => 1u8..4]).prop_map(|(stored, change, col, flags, with_data, unclean)| MismatchCase { stored, change, col, flags, with_data, unclean }),
 		run_mismatch,
 	) {
 		return
